@@ -98,7 +98,9 @@ class Tape:
         k, r, v = self.script.pop(0)
         same_range = True
         if r is not None and rng is not None:
-            same_range = (tuple(r) == tuple(rng)) if isinstance(rng, (tuple, list)) else (r == rng)
+            a = tuple(r) if isinstance(r, (tuple, list)) else (r,)
+            b = tuple(rng) if isinstance(rng, (tuple, list)) else (rng,)
+            same_range = a == b
         if k != kind or not same_range:
             e = TapeMismatch("script has %s(%s), code asked for %s(%s) via %s" % (k, r, kind, rng, api))
             e.reason = "range" if k == kind else "kind"
